@@ -4,6 +4,8 @@ package main
 import (
 	"bytes"
 	"fmt"
+	"github.com/gobwas/ws"
+	"github.com/gobwas/ws/wsutil"
 	"io"
 	"sync"
 
@@ -31,7 +33,7 @@ func enum(tier string) [][]gen.Shape {
 	return enumQ
 }
 
-var entries = []string{"reader", "reader-discard", "reader-discard-utf8", "reader-nohandler", "reader-lazyhandler", "reader-ctlhandler", "reader-maxframe", "nextreader", "readmessage", "readdata", "readtext", "readbinary"}
+var entries = []string{"reader", "reader-discard", "reader-discard-utf8", "reader-nohandler", "reader-lazyhandler", "reader-ctlhandler", "reader-maxframe", "reader-options", "nextreader", "readmessage", "readdata", "readtext", "readbinary"}
 var bufs = []int{1, 2, 7, 64, 4096, 65536, drive.CopyBuf}
 
 // checkStream runs one frame sequence through every entry point under several
@@ -105,6 +107,22 @@ func checkStream(c *mon.C, shapes []gen.Shape, side ref.Side, nplans int) bool {
 		case "reader-ctlhandler":
 			o.Entry, o.Intermediate, o.CheckUTF8 = "reader", 3, true
 			if c.Rng.Intn(2) == 0 {
+				frames = framesU
+			}
+		case "reader-options":
+			// options that cannot matter on a valid stream, in every combination: header checks off, UTF-8 checking
+			// on, a size limit far above every frame, an extension that leaves headers alone
+			o.Entry = "reader"
+			k := c.I + int(side)
+			o.SkipCheck = k&1 == 1
+			o.CheckUTF8 = k&2 == 2
+			if k&4 == 4 {
+				o.MaxFrameSize = 1 << 40
+			}
+			if k&8 == 8 {
+				o.Extensions = []wsutil.RecvExtension{wsutil.RecvExtensionFunc(func(h ws.Header) (ws.Header, error) { return h, nil })}
+			}
+			if o.CheckUTF8 && c.Rng.Intn(2) == 0 {
 				frames = framesU
 			}
 		case "reader-maxframe":
